@@ -524,9 +524,30 @@ func c20ResetFacts(r *Run) {
 						}
 					}
 				case *ast.CallExpr:
+					// a store through a method of an atomic/sync value held in the variable (flag.Store(false))
+					if se, ok := ast.Unparen(x.Fun).(*ast.SelectorExpr); ok {
+						if id, ok := ast.Unparen(se.X).(*ast.Ident); ok && p.TypesInfo.Uses[id] == v && mutatingContainerCall(v.Type(), se.Sel.Name) {
+							found = true
+						}
+					}
 					if cal := calleeFunc(p.TypesInfo, x); cal != nil {
 						if cp, cd := r.declAnywhere(cal); cd != nil && assigns(cp, cd, depth+1) {
 							found = true
+						}
+					}
+					// a function handed on as a value (oncePerFile(file, vm.runFile)) runs as part of the entry
+					for _, arg := range x.Args {
+						var fo types.Object
+						switch y := ast.Unparen(arg).(type) {
+						case *ast.Ident:
+							fo = p.TypesInfo.Uses[y]
+						case *ast.SelectorExpr:
+							fo = p.TypesInfo.Uses[y.Sel]
+						}
+						if f, ok := fo.(*types.Func); ok {
+							if cp, cd := r.declAnywhere(f); cd != nil && assigns(cp, cd, depth+1) {
+								found = true
+							}
 						}
 					}
 				}
